@@ -1,0 +1,10 @@
+//go:build verif
+
+package inode
+
+import "github.com/mit-pdos/go-journal/common"
+
+// VerifBlks returns the inode's block-pointer array (not a copy).
+func (ip *Inode) VerifBlks() []common.Bnum {
+	return ip.blks
+}
